@@ -293,10 +293,22 @@ class C19(PropertyCheck):
             if rng.random() < 0.3 and n > 4:
                 k = rng.randrange(n)
                 xs[k:] = sorted(xs[k:])
+            if rng.random() < 0.45 and n > 20:
+                # two to four runs that are ascending BY KEY (x % m), of unequal lengths, with the same keys in every run:
+                # merges with a shorter right run / shorter left run and many ties across the runs
+                cuts = sorted(rng.sample(range(1, n), rng.choice([1, 1, 2, 3])))
+                parts, prev = [], 0
+                for c_ in cuts + [n]:
+                    parts.append(sorted(xs[prev:c_], key=lambda v: v % m))
+                    prev = c_
+                xs = [v for p_ in parts for v in p_]
+                form_force = 'key'
+            else:
+                form_force = None
             lit = '[' + ', '.join(map(str, xs)) + ']'
             if n == 0:
                 lit = 'range(0).to_array()'
-            form = rng.choice(['dyn', 'key', 'key', 'reverse', 'nsmall', 'nth', 'nlarge', 'median'])
+            form = form_force or rng.choice(['dyn', 'key', 'key', 'reverse', 'nsmall', 'nth', 'nlarge', 'median'])
             srt = sorted(xs)
             if form == 'dyn':
                 e, want = f'{lit}.sort()', None
@@ -343,7 +355,22 @@ class C19(PropertyCheck):
                        'ops': None})
         for j in fj:
             j.pop('ops')
-        sres = core.run_harness(ctx['binary'], sj + fj, os.path.join(workdir, 'hs'), timeout=300)
+        # a comparator that fails on ONE ordered pair and says so on the output: whenever the marker was printed the sort must return that failure
+        mj = []
+        for i in range(40 if tier == 'quick' else 400):
+            n = rng.choice([2, 3, 4, 5, 8, 19, 21, 25, 40])
+            xs = rng.sample(range(0, 1000), n)
+            if rng.random() < 0.5:
+                k = rng.randrange(n - 1)
+                X, Y = xs[k], xs[k + 1]
+            else:
+                X, Y = rng.sample(xs, 2)
+            lit = '[' + ', '.join(map(str, xs)) + ']'
+            cmpf = f'(a: int, b: int)->{{ if(a == {X} && b == {Y}, error(display("boom")), a - b) }}'
+            form = rng.choice(['sort', 'sort', 'sort_reverse', 'n_smallest(2, ', 'nth_smallest(0, '])
+            call = f'{lit}.{form}({cmpf})' if '(' not in form else f'{lit}.{form}{cmpf})'
+            mj.append({'id': f'm{i}', 'src': f'fn c0() -> str {{ to_str({call}) }}', 'calls': ['c0']})
+        sres = core.run_harness(ctx['binary'], sj + fj + mj, os.path.join(workdir, 'hs'), timeout=300)
         smodel = core.coq_eval(sterms, self.imports, os.path.join(workdir, 'coqs'), shard_size=40, timeout=900)
         for job, m, (form, n) in zip(sj, smodel, smeta):
             r = sres.get(job['id'])
@@ -368,6 +395,20 @@ class C19(PropertyCheck):
             if b.get('after_drop') != b.get('base'):
                 violations.append({'what': 'a failed sort left bytes accounted after every value was dropped (elements leaked or double-freed)', 'case': {'src': job['src']},
                                    'impl': b, 'model': 'after_drop == base'})
+            else:
+                distinct.add(job['src'])
+        for job in mj:
+            r = sres.get(job['id'])
+            n_eval += 1
+            if r is None or r.get('compile') != 'ok':
+                continue              # an order-statistic form that does not take a comparator in this position
+            out = r['calls'][0]
+            seen = 'boom' in (r.get('stdout') or '')
+            if seen and out != 'E:boom':
+                violations.append({'what': 'the comparator failed (its marker was printed) but the failure was swallowed: the call returned something else',
+                                   'case': {'src': job['src']}, 'impl': out[:200], 'model': 'E:boom'})
+            elif not seen and not out.startswith('s:'):
+                violations.append({'what': 'the comparator never failed, yet the call did not return a value', 'case': {'src': job['src']}, 'impl': out[:200], 'model': 'a value'})
             else:
                 distinct.add(job['src'])
         # ------------------------------------------------------------------ (c) format
